@@ -1,7 +1,7 @@
 (** * C03 -- in all-compliant mode every instance conforms to its extracted shape *)
 From Coq Require Import List Ascii String ZArith NArith Bool.
 From Shexer Require Import Lib.PyStr Lib.Dict Lib.Bin64 Gen.Consts Spec.Rdf Spec.ShexSem Model.Tracker Model.Profiler
-     Model.Freq Model.FreqInst Model.Shexing Model.Run Model.SchemaOf Model.C03Dom Proofs.Bin64Round Proofs.FreqLaws Proofs.ConformProofs.
+     Model.Freq Model.FreqInst Model.Shexing Model.Run Model.SchemaOf Model.C03Dom Proofs.Bin64Round Proofs.FreqLaws Proofs.ConformProofs Proofs.ConformSat.
 Import ListNotations.
 
 (** ** T1 -- switching the mode off never changes a cardinality.
@@ -107,6 +107,88 @@ Theorem C03_opt_at_most_one : forall cfg (A : Type) insts_of cntf (thr : F BAlg)
 Proof. exact (opt_at_most_one BAlg _ _ BAlg_laws). Qed.
 Print Assumptions C03_opt_at_most_one.
 
+(** ** T4 -- conformance on the strict domain (PARTIAL: conditional on the
+    profile characterisation).
+
+    [strict_domb tau shapes_ns G] is the property's strict domain as a boolean
+    (Model/C03Dom.v): no duplicate triple; literal datatypes are not the words
+    IRI / BNode / NONLITERAL nor shape names; labels are shape names; classes
+    are IRIs and are not themselves instances; and for every class, direction
+    and ordinary property the non-literal neighbours of the instances have one
+    node kind ([kinds_homog]) and are all untyped or all instances of exactly
+    one class, the same for all ([typed_homog]).
+
+    [profile_exact] (Proofs/ConformSat.v) is the premise: the class profile the
+    model's profiler computes is the one Spec/Counts.v describes -- for every
+    class the count is its number of instances, every entry (direction,
+    property, type key, cardinality key) holds the (positive) number of
+    instances that count for it, every type key carried by a value of an
+    instance has its entry, every class typing a node has a profile entry, and
+    shape labels are distinct.  That is the profile characterisation P1
+    (Proofs/ProfileChar.v, another builder); it is NOT proved here, which is
+    why this theorem is [_partial].  The harness evaluates the boolean mirror
+    [profile_exactb] of the premise on the model's own tracker + profiler for
+    every generated strict-domain input (entry c03_premises), and
+    [C03_conformance_checked] turns a computed [true] into the conclusion.
+
+    Conclusion: the instance typing (every subject of a typing triple paired
+    with the shape of that class) is a VALID TYPING of the extracted schema:
+    every cardinality holds for every instance, every value over a mentioned
+    path matches a constraint of that path, references are resolved in the
+    same typing (so cycles are fine) -- [Spec/ShexSem.valid_typing]. *)
+Theorem C03_conformance_partial : forall c g ns shapes,
+  r_keep_less_specific c = true -> r_all_compliant c = true -> r_disable_or c = true ->
+  strict_domb (r_tau c) (r_shapes_ns c) g = true ->
+  (forall ins P C ID,
+     track (r_tau c) (match r_targets c with Some l => TClasses l | None => TAll end) (r_cap c) g = inl ins ->
+     profile (pcfg_of c) ins g = inl (P, C, ID) ->
+     profile_exact okN53 (scfg_of c ns) g P C) ->
+  run_shapes BAlg c (thr_val BAlg 0 1) g = inl (ns, shapes) ->
+  valid_typing (schema_of (r_tau c) shapes) g (instance_typing (r_tau c) (r_shapes_ns c) g).
+Proof.
+  exact (fun c g ns shapes =>
+           run_conformance_thr0 BAlg _ _ BAlg_laws c g ns shapes
+                                (conj (eq_refl : (0 ?= 1)%N = Lt) (eq_refl : (1 ?= 2 ^ 53)%N = Lt))).
+Qed.
+Print Assumptions C03_conformance_partial.
+
+(** the same with exact rational frequencies (no bound on class sizes) *)
+Theorem C03_conformance_partial_exact : forall c g ns shapes,
+  r_keep_less_specific c = true -> r_all_compliant c = true -> r_disable_or c = true ->
+  strict_domb (r_tau c) (r_shapes_ns c) g = true ->
+  (forall ins P C ID,
+     track (r_tau c) (match r_targets c with Some l => TClasses l | None => TAll end) (r_cap c) g = inl ins ->
+     profile (pcfg_of c) ins g = inl (P, C, ID) ->
+     profile_exact (fun d => 0 < d)%N (scfg_of c ns) g P C) ->
+  run_shapes QAlg c (thr_val QAlg 0 1) g = inl (ns, shapes) ->
+  valid_typing (schema_of (r_tau c) shapes) g (instance_typing (r_tau c) (r_shapes_ns c) g).
+Proof.
+  exact (fun c g ns shapes =>
+           run_conformance_thr0 QAlg _ _ QAlg_laws c g ns shapes (eq_refl : (0 ?= 1)%N = Lt)).
+Qed.
+Print Assumptions C03_conformance_partial_exact.
+
+Lemma okN53b_ok d : okN53b d = true -> okN53 d.
+Proof.
+  unfold okN53b, okN53. intros H. apply andb_true_iff in H. destruct H as [A B].
+  apply N.ltb_lt in A. apply N.ltb_lt in B. split; assumption.
+Qed.
+
+(** with both premises COMPUTED ([c03_premises]: [strict_domb] and the boolean
+    mirror [profile_exactb] of the profile characterisation, on the model's own
+    tracker and profiler) the executable validator accepts the run *)
+Theorem C03_conformance_checked : forall c g ns shapes,
+  r_keep_less_specific c = true -> r_all_compliant c = true -> r_disable_or c = true ->
+  c03_premises okN53b c g = Some (true, true) ->
+  run_shapes BAlg c (thr_val BAlg 0 1) g = inl (ns, shapes) ->
+  valid_typingb (schema_of (r_tau c) shapes) g (instance_typing (r_tau c) (r_shapes_ns c) g) = true.
+Proof.
+  exact (fun c g ns shapes =>
+           run_conformance_checked_thr0 BAlg _ _ BAlg_laws okN53b c g ns shapes
+                                        (conj (eq_refl : (0 ?= 1)%N = Lt) (eq_refl : (1 ?= 2 ^ 53)%N = Lt)) okN53b_ok).
+Qed.
+Print Assumptions C03_conformance_checked.
+
 (** ** non-vacuity: a schema-consistent graph (two classes, a reference, a
     literal property with per-instance cardinalities 1 and 2, an instance
     without the optional property) whose extracted schema is satisfied by
@@ -122,6 +204,13 @@ Example C03_nonvacuous :
   conforms_run BAlg (c03_cfg true true true false true) (thr_val BAlg 0 1) c03_good = Some true /\
   conforms_run QAlg (c03_cfg false false false true true) (thr_val QAlg 0 1) c03_good = Some true.
 Proof. vm_compute. repeat split. Qed.
+
+(** the premises of T4 hold of that run (the theorem is not vacuous), and the
+    three witnesses below are outside the strict domain *)
+Example C03_premises_inhabited :
+  c03_premises okN53b (c03_cfg true true true false true) c03_good = Some (true, true) /\
+  (exists ns shapes, run_shapes BAlg (c03_cfg true true true false true) (thr_val BAlg 0 1) c03_good = inl (ns, shapes)).
+Proof. split; [vm_compute; reflexivity|]. eexists. eexists. vm_compute. reflexivity. Qed.
 
 (** ** the three root causes outside the strict domain (known findings) *)
 
